@@ -381,6 +381,109 @@ fn large_batch_scenario() -> ScenFn {
     })
 }
 
+/// A StreamingPull control message that carries an acknowledgement AND a deadline extension; the stream's client
+/// disappears k polls after sending it.  Either the whole message was applied or none of it.
+fn stream_control_scenario() -> ScenFn {
+    scen!([] |cx| {
+        let a = cx.api.clone();
+        must!(cx, "setup:create-topic", { let a = a.clone(); async move { a.create_topic(T0).await } });
+        must!(cx, "setup:create-sub", { let a = a.clone(); async move { a.create_sub(S0, T0, 10, None).await } });
+        must!(cx, "setup:publish", { let a = a.clone(); async move { a.publish(T0, vec![(b"m1".to_vec(), vec![]), (b"m2".to_vec(), vec![])]).await } });
+        let what = cx.choose("control-message", 3); // 0: ack m1 + extend m2; 1: ack m1 + nack m2; 2: extend m1 30 s + extend m2 60 s (two seconds, one list)
+        let sent = std::sync::Arc::new(std::sync::atomic::AtomicBool::new(false));
+        let sent2 = sent.clone();
+        let a2 = a.clone();
+        let h = cx.spawn("client:00-stream", async move {
+            let (tx, r) = a2.streaming_pull(first_stream_req(S0, 1000)).await;
+            let mut st = match r { Ok(s) => s, Err(_) => return };
+            let mut got: Vec<Rm> = vec![];
+            while got.len() < 2 {
+                match st.message().await {
+                    Ok(Some(m)) => got.extend(m.received_messages.iter().map(to_rm)),
+                    _ => return,
+                }
+            }
+            let id = |d: &[u8]| got.iter().find(|m| m.data == d).map(|m| m.ack_id.clone()).unwrap();
+            let req = match what {
+                0 => deltio::pubsub_proto::StreamingPullRequest { ack_ids: vec![id(b"m1")], modify_deadline_ack_ids: vec![id(b"m2")], modify_deadline_seconds: vec![30], ..Default::default() },
+                1 => deltio::pubsub_proto::StreamingPullRequest { ack_ids: vec![id(b"m1")], modify_deadline_ack_ids: vec![id(b"m2")], modify_deadline_seconds: vec![0], ..Default::default() },
+                _ => deltio::pubsub_proto::StreamingPullRequest { modify_deadline_ack_ids: vec![id(b"m1"), id(b"m2")], modify_deadline_seconds: vec![30, 60], ..Default::default() },
+            };
+            let _ = tx.send(req).await;
+            sent2.store(true, std::sync::atomic::Ordering::SeqCst);
+            // keep reading (and never acknowledge anything else)
+            loop {
+                match st.message().await {
+                    Ok(Some(_)) => {}
+                    _ => break,
+                }
+            }
+            drop(tx);
+        });
+        // run until the control message has been handed to the transport, then k more polls of the client task
+        let s3 = sent.clone();
+        for _ in 0..400 {
+            if s3.load(std::sync::atomic::Ordering::SeqCst) || h.is_finished() {
+                break;
+            }
+            tryv!(cx.run_steps(1).await);
+        }
+        if !sent.load(std::sync::atomic::Ordering::SeqCst) {
+            return ScenarioOut::viol("stream-control/setup", "the stream never received its two messages".to_string());
+        }
+        let k = cx.choose("abandon-after-steps", 9);
+        if k < 8 {
+            tryv!(cx.run_steps(k as u32).await);
+        } else {
+            tryv!(cx.quiesce().await);
+        }
+        let t_abandon = cx.now_ms();
+        cx.abort_now(&h).await;
+        tryv!(cx.quiesce().await);
+        // what is available now, at +11 s, at +31 s, at +61 s (return_immediately pulls; everything pulled is acked so
+        // that it does not come back)
+        let mut seen: Vec<(i64, Vec<u8>)> = vec![];
+        for at in [0i64, 11_000, 31_000, 61_500] {
+            let was = cx.freeze(true);
+            let q = cx.advance_to_ms(t_abandon + at).await;
+            cx.freeze(was);
+            tryv!(q);
+            let a3 = a.clone();
+            let v = match tryv!(cx.settle("probe:pull", async move { a3.pull(S0, 10, true).await }).await) { Ok(v) => v, Err(c) => return ScenarioOut::viol("stream-control/probe-failed", format!("probe pull failed with {:?}", c)) };
+            let ids: Vec<String> = v.iter().map(|m| m.ack_id.clone()).collect();
+            for m in &v {
+                seen.push((at, m.data.clone()));
+            }
+            if !ids.is_empty() {
+                let a4 = a.clone();
+                let _ = tryv!(cx.settle("probe:ack", async move { a4.ack(S0, ids).await }).await);
+            }
+        }
+        let when = |d: &[u8]| seen.iter().find(|(_, x)| x == d).map(|(t, _)| *t);
+        let (w1, w2) = (when(b"m1"), when(b"m2"));
+        // classification per half: Some(true) applied, Some(false) not applied
+        let (first, second, desc) = match what {
+            0 => (w1.is_none(), w2 == Some(31_000), "ack m1 / extend m2 to 30 s"),
+            1 => (w1.is_none(), w2 == Some(0), "ack m1 / nack m2"),
+            _ => (w1 == Some(31_000), w2 == Some(61_500), "extend m1 to 30 s / extend m2 to 60 s"),
+        };
+        // not applied means: the delivery expires at its original 10 s deadline
+        let first_untouched = w1 == Some(11_000);
+        let second_untouched = w2 == Some(11_000);
+        let key = format!("what={} k={} m1@{:?} m2@{:?}", what, k, w1, w2);
+        if !(first || first_untouched) || !(second || second_untouched) {
+            return ScenarioOut::viol("stream-control/unexpected-state", format!("{} ({}): neither applied nor untouched", key, desc));
+        }
+        // a nacked message may be taken again by the very stream that nacked it (while it lives) and is then leased for
+        // another 10 s: for the ack + nack message "m2 came back at +11 s" does not tell whether the nack was applied
+        let second_unknown = what == 1 && w2 == Some(11_000);
+        if first != second && !second_unknown {
+            return ScenarioOut::viol("stream-control/half-applied", format!("control message [{}] abandoned after {} steps: first half {}, second half {} (m1 available again at {:?} ms, m2 at {:?} ms after the abandonment)", desc, k, if first { "applied" } else { "not applied" }, if second { "applied" } else { "not applied" }, w1, w2));
+        }
+        ScenarioOut::ok(format!("what={} applied={}", what, first))
+    })
+}
+
 pub fn units(thorough: bool) -> Vec<Unit> {
     let d = if thorough { 3 } else { 1 };
     vec![
@@ -404,6 +507,13 @@ pub fn units(thorough: bool) -> Vec<Unit> {
             Bounds::new(0),
             ExecCfg { max_steps: 200_000, ..Default::default() },
             large_batch_scenario(),
+        ),
+        explore_unit(
+            "crash/stream-control-message",
+            "a StreamingPull control message carrying two parts (ack + extension, ack + nack, two extensions); the stream's client disappears k scheduler steps after sending it (every k in 0..8, and never): afterwards either both parts were applied or neither (probed at +0, +11, +31, +61.5 s)",
+            Bounds::new(d),
+            ExecCfg::default(),
+            stream_control_scenario(),
         ),
         explore_unit(
             "crash/saturated",
